@@ -7,4 +7,4 @@ Extraction "../ocaml/gen/c13_model.ml"
   classify spec_kind handle_branch shape_of python_name find_method
   spec_leaves generic_guard finding_class nested_jsonrpc wf_json has_type_name deep_jsonrpc
   array_with_objects good_key helper_ok method_covered helpers_ok registry_ok spec_trip model_trip
-  spec_helper call_user_feature receive_stream.
+  spec_helper call_user_feature receive_stream model_trip_after ev_step.
